@@ -553,7 +553,62 @@ func c15Enumerate(e *c15Entry, thorough bool, f func(m *c15Mutant)) {
 			f(&c15Mutant{Class: "version", Desc: fmt.Sprintf("version byte = %d", v), Data: m})
 		}
 	}
-	_ = thorough
+	if !thorough {
+		return
+	}
+	// Second-order faults (thorough tier: the deviation bound raised from one fault to two).
+	// (7) a header byte changed AND the input truncated: a count or flag that no longer matches
+	// what follows, followed by an end of input at every later position
+	hdr := len(d)
+	if hdr > 24 {
+		hdr = 24
+	}
+	maxN := len(d)
+	if maxN > 160 {
+		maxN = 160
+	}
+	for off := 0; off < hdr; off++ {
+		for _, v := range c15ByteAlphabet {
+			if v == d[off] {
+				continue
+			}
+			m := append([]byte(nil), d...)
+			m[off] = v
+			if h, _ := heavyAt(m); h {
+				f(nil)
+				continue
+			}
+			for n := off + 1; n < maxN; n++ {
+				f(&c15Mutant{Class: "byte+truncate", Desc: fmt.Sprintf("byte %d: %#02x -> %#02x, then truncate to %d bytes", off, d[off], v, n), Data: m[:n]})
+			}
+		}
+	}
+	// (8) every pair of header bytes over the boundary byte alphabet
+	hdr2 := len(d)
+	if hdr2 > 14 {
+		hdr2 = 14
+	}
+	for i := 0; i < hdr2; i++ {
+		for j := i + 1; j < hdr2; j++ {
+			for _, vi := range c15ByteAlphabet {
+				if vi == d[i] {
+					continue
+				}
+				for _, vj := range c15ByteAlphabet {
+					if vj == d[j] {
+						continue
+					}
+					m := append([]byte(nil), d...)
+					m[i], m[j] = vi, vj
+					if h, _ := heavyAt(m); h {
+						f(nil)
+						continue
+					}
+					f(&c15Mutant{Class: "byte2", Desc: fmt.Sprintf("byte %d = %#02x and byte %d = %#02x", i, vi, j, vj), Data: m})
+				}
+			}
+		}
+	}
 }
 
 // ---- worker ----------------------------------------------------------------------
